@@ -30,7 +30,7 @@ func init() {
 			sc.SetInt("k", g.Range(2, 4))
 			sc.SetInt("vary", g.PickInt(0, 0, 1, 2))
 			sc.SetInt("seqmode", 1)
-			sc.SetInt("raw", g.Intn(2))
+			sc.SetInt("raw", g.PickInt(0, 0, 1, 1, 2, 3))
 			return sc
 		},
 		Valid: c12Valid,
@@ -47,7 +47,7 @@ func init() {
 			genChain(g, sc, g.PickInt(1, 1, 2, 3), nvalues(script), "sync", coldDeterministic)
 			sc.Sub = "concurrent"
 			sc.SetInt("k", g.Range(2, 3))
-			sc.SetInt("raw", g.Intn(2))
+			sc.SetInt("raw", g.PickInt(0, 0, 1, 1, 2, 3))
 			return sc
 		},
 		Valid: c12Valid,
@@ -78,7 +78,7 @@ func init() {
 			sc.Sub = "opvalue"
 			sc.SetInt("order", g.Intn(6))
 			sc.SetInt("seqmode", 1)
-			sc.SetInt("raw", g.Intn(2))
+			sc.SetInt("raw", g.PickInt(0, 0, 1, 1, 2, 3))
 			return sc
 		},
 		Valid: c12Valid,
